@@ -145,6 +145,12 @@ func check(c *pbt.Case, r *pbt.R) {
 			} else if bi != b0 {
 				r.Failf(fmt.Sprintf("Is(e, r) changes when e is transferred: %v -> %v", b0, bi), "hop %d\n%s", i, desc())
 			}
+			// IsAny agrees, also with a nil reference listed first.
+			if ia, p := obs.Try2(func() bool { return errors.IsAny(es[i], nil, ro) }); p != "" {
+				r.Failf("IsAny panics after transfer", "hop %d: %v\n%s", i, p, desc())
+			} else if ia != b0 {
+				r.Failf(fmt.Sprintf("IsAny(e, nil, r) differs from Is(e, r) after transfer: %v vs %v", ia, b0), "hop %d\n%s", i, desc())
+			}
 			// r transferred through the same processes
 			rb = transfer(c, i, rb)
 			ri := wire.Decode(rb)
